@@ -343,6 +343,9 @@ def monitorStack (mws : List Mw) (m : MsgSpec) (script : List Res) (o : Obs) : S
   let expectedAlt := effects cidBefore outer (finOf cidBefore).2
   -- a panic never escapes a Recoverer
   if o.isPanic && hasMw mws .recoverer then bad := bad ++ ["recoverer_never_escapes"]
+  -- … and is turned into an error: a result that must carry a recovered panic but reports no error at all
+  if (showRes expected).endsWith ",1)" && (pfx "ret/" o.res) && o.res.endsWith "/none" then
+    bad := bad ++ ["recoverer_panic_becomes_error"]
   -- composition with Retry: the attempt count is Retry's own
   if o.calls.length != n then bad := bad ++ ["retry_attempt_count"]
   -- outputs and error pass unchanged except for the documented effects
@@ -413,13 +416,27 @@ def monitorDelay (c : DelayCfg) (pre : Delay) (seq : List Bool) (obs : String) :
     | r :: _ => return "violated:" ++ r
     | [] => return "ok"
 
+def ctxKindOk (c : String) : Bool := c = "live" || c = "cancelled" || c = "timeout"
+
+/-- `stackn` = `stack` executed in a program with GODEBUG=panicnil=1 (recover() returns nil for panic(nil)): the
+    statement, and the model, are the same – every panic value, nil included, is a panic -/
 def handle (line : String) : String :=
   match line.splitOn " " with
-  | ["M", "stack", mws, msg, script] =>
+  | ["M", kind, mws, msg, script] =>
+    if kind != "stack" && kind != "stackn" then
+      (match kind, parseCfg mws, parseDelay msg, parseSeq script with
+       | "delay", some c, some p, some s => modelDelay c p s
+       | _, _, _, _ => "bad-op")
+    else
     match parseMws mws, parseMsg msg, parseScript script with
     | some mws, some m, some sc => modelStack mws m sc
     | _, _, _ => "bad-op"
-  | "P" :: "stack" :: mws :: msg :: script :: "##" :: obs =>
+  | "P" :: kind :: mws :: msg :: script :: "##" :: obs =>
+    if kind = "delay" then
+      (match obs, parseCfg mws, parseDelay msg, parseSeq script with
+       | [o], some c, some p, some s => monitorDelay c p s o
+       | _, _, _, _ => "bad-op")
+    else if kind != "stack" && kind != "stackn" then "bad-op" else
     match parseMws mws, parseMsg msg, parseScript script with
     | some mws, some m, some sc =>
       if obs = ["hang"] then "violated:hang" else
@@ -427,23 +444,16 @@ def handle (line : String) : String :=
       | some o => monitorStack mws m sc o
       | none => "violated:unreadable_observation"
     | _, _, _ => "bad-op"
-  | ["M", "delay", cfg, pre, seq] =>
-    match parseCfg cfg, parseDelay pre, parseSeq seq with
-    | some c, some p, some s => modelDelay c p s
-    | _, _, _ => "bad-op"
-  | ["P", "delay", cfg, pre, seq, "##", obs] =>
-    match parseCfg cfg, parseDelay pre, parseSeq seq with
-    | some c, some p, some s => monitorDelay c p s obs
-    | _, _, _ => "bad-op"
-  | ["M", "throttle", n, count, dur, k] =>
+  | ["M", "throttle", n, count, dur, k, ctx] =>
     match n.toNat?, count.toNat?, dur.toNat?, k.toNat? with
     | some n, some c, some d, some k =>
-      if n = 0 || c = 0 || d / c = 0 || k = 0 then "bad-op" else "starts=" ++ toString n ++ " spaced=1"
+      -- the model's Throttle takes a tick for every message, whatever its context: the bound always holds
+      if n = 0 || c = 0 || d / c = 0 || k = 0 || !ctxKindOk ctx then "bad-op" else "starts=" ++ toString n ++ " spaced=1"
     | _, _, _, _ => "bad-op"
-  | ["P", "throttle", n, count, dur, k, "##", starts, spaced] =>
+  | ["P", "throttle", n, count, dur, k, ctx, "##", starts, spaced] =>
     match n.toNat?, count.toNat?, dur.toNat?, k.toNat? with
     | some n, some c, some d, some k =>
-      if n = 0 || c = 0 || d / c = 0 || k = 0 then "bad-op"
+      if n = 0 || c = 0 || d / c = 0 || k = 0 || !ctxKindOk ctx then "bad-op"
       else if starts != "starts=" ++ toString n then "violated:transparent_result"
       else if spaced != "spaced=1" then "violated:throttle_rate"
       else "ok"
